@@ -279,7 +279,8 @@ func (w *world) do(c octx, variant string, q reqSpec, s string) *httptest.Respon
 	}
 	r.URL.Path = q.prefix + s + q.suffix
 	if q.form == 1 {
-		r.URL.RawPath = q.prefix + encAll(s) + q.suffix
+		// (dots of the prefix too, so that the router's cleaning does not see them)
+		r.URL.RawPath = strings.ReplaceAll(q.prefix, ".", "%2e") + encAll(s) + q.suffix
 	}
 	r.RequestURI = r.URL.EscapedPath()
 	r.RemoteAddr = "192.0.2.1:1234"
@@ -414,6 +415,15 @@ func (w *world) driveHTTP(s string, form int, v string) {
 	c = octx{http: true, name: "static", kind: kStatic}
 	w.run(c, func() {
 		w.do(c, v, get("/", "", none), s)
+	}, nil)
+
+	// static files below an existing sub-directory of the static root, with
+	// zero, one or two climbs already in the prefix
+	c = octx{http: true, name: "static-subdir", kind: kStatic}
+	w.run(c, func() {
+		for _, pre := range []string{"/third-party/", "/third-party/../", "/third-party/../../", "/b/../../"} {
+			w.do(c, v, get(pre, "", none), s)
+		}
 	}, nil)
 
 	// management API: group.  The documented URL of a group is
